@@ -14,11 +14,14 @@
  * enumerated, fewest deviations first.
  *
  * Oracle (the one of c17_endpoints.c): what reached the sink is a prefix of
- * the stream; the first hard error a driver answered is what the call returns;
- * without one, the counted form returns n with exactly n octets moved (0 /
+ * the stream; after a hard answer of a driver (or the source's early end) a
+ * failing call returns an error -- any negative code, the statement says "an
+ * error is returned" of plumbing -- and a call that went on and moved exactly
+ * what was asked did not fail; without a hard answer the counted form returns n with exactly n octets moved (0 /
  * EINTR / EAGAIN are retried through) and the drain form moves the whole
  * stream; the at-most forms never move more than asked, return the count
- * moved, and may pass an interruption on only if nothing was taken and dropped.
+ * moved (a short positive count also when a hard answer followed progress), and
+ * may pass an interruption on only if nothing was taken and dropped.
  */
 #include "mc.h"
 
@@ -149,17 +152,6 @@ static const char *OPN[] = { "sts_n", "sts_atmost", "sts_some", "sts_drain" };
 static bool intr_code(ssize_t rc) { return rc == -EINTR || rc == -EAGAIN; }
 static bool intr_seen(ssize_t rc) { return (rc == -EINTR && E.seen_eintr) || (rc == -EAGAIN && E.seen_eagain); }
 
-/* "a hard driver error is returned unchanged": the first one any driver
- * answered; where that was the source's own end, an at-most step may have
- * reported its short count, so a scripted error answered after it is accepted too */
-static bool
-hard_ok(ssize_t rc)
-{
-    if (rc == E.first_hard)
-        return true;
-    return E.first_hard == -ENODATA && E.first_scripted_hard != 0 && rc == E.first_scripted_hard;
-}
-
 static const char *
 run(int op, size_t n, size_t stream, size_t ssize, size_t soff, size_t sused, const int *ss, int sl, const int *ks, int kl)
 {
@@ -210,9 +202,13 @@ run(int op, size_t n, size_t stream, size_t ssize, size_t soff, size_t sused, co
         return "failed";
     }
     if (op == OP_DRAIN) {
-        if (E.first_scripted_hard != 0) {
-            if (rc != E.first_scripted_hard)
-                mc_fail("C17/hard-error-unchanged", "driver answered %d, sts_drain returned %zd", E.first_scripted_hard, rc);
+        /* plumbing: "when it fails, an error is returned" -- any negative code; a
+         * drain that went on after a hard answer and moved the whole stream did
+         * not fail */
+        if (E.first_scripted_hard != 0 && !(E.ngot == stream && E.pos == stream)) {
+            if (rc >= 0)
+                mc_fail("C17/failure-is-error", "driver answered %d, sts_drain stopped after %zu of %zu octets and returned %zd",
+                        E.first_scripted_hard, E.ngot, stream, rc);
             return "hard-error";
         }
         /* the return value of a drain that met nothing but the source's end is not pinned */
@@ -230,11 +226,14 @@ run(int op, size_t n, size_t stream, size_t ssize, size_t soff, size_t sused, co
             mc_fail("C17/exact-count", "sts_n(%zu) took %zu octets from the source and put %zu into the sink", n, E.pos, E.ngot);
             return "failed";
         }
-        if (E.first_hard != 0) {
-            if (!hard_ok(rc))
-                mc_fail("C17/hard-error-unchanged", "driver answered %d, sts_n(%zu) on a stream of %zu octets returned %zd", E.first_hard,
-                        n, stream, rc);
+        /* after a hard answer: a negative return reports the failure (any code);
+         * a non-negative one is only right if the call did not fail after all */
+        if (E.first_hard != 0 && rc < 0)
             return E.first_scripted_hard == 0 ? "n-source-ended" : "hard-error";
+        if (E.first_hard != 0 && !(rc == (ssize_t)n && E.ngot == n && E.pos == n)) {
+            mc_fail("C17/failure-is-error", "driver answered %d, sts_n(%zu) on a stream of %zu octets returned %zd with %zu octets in the sink",
+                    E.first_hard, n, stream, rc, E.ngot);
+            return "failed";
         }
         if (rc != (ssize_t)n) {
             if (intr_code(rc))
@@ -256,8 +255,10 @@ run(int op, size_t n, size_t stream, size_t ssize, size_t soff, size_t sused, co
         return "failed";
     }
     if (rc >= 0) {
-        if (E.first_hard != 0 && !(E.first_scripted_hard == 0 && E.ngot > 0)) {
-            mc_fail("C17/hard-error-unchanged", "driver answered %d, %s returned %zd", E.first_hard, OPN[op], rc);
+        /* a hard answer after some progress may be reported as the short positive
+         * count; with nothing in the sink the call failed and an error is owed */
+        if (E.first_hard != 0 && E.ngot == 0) {
+            mc_fail("C17/failure-is-error", "driver answered %d, nothing reached the sink, %s returned %zd", E.first_hard, OPN[op], rc);
             return "failed";
         }
         if ((size_t)rc != E.ngot) {
@@ -277,11 +278,8 @@ run(int op, size_t n, size_t stream, size_t ssize, size_t soff, size_t sused, co
         }
         return "atmost-moved";
     }
-    if (E.first_hard != 0) {
-        if (!hard_ok(rc))
-            mc_fail("C17/hard-error-unchanged", "driver answered %d, %s returned %zd", E.first_hard, OPN[op], rc);
+    if (E.first_hard != 0) /* "when it fails, an error is returned": any negative code */
         return "hard-error";
-    }
     if (intr_code(rc) && intr_seen(rc)) {
         if (E.pos != E.ngot)
             mc_fail("C17/no-loss", "%s passed on the interruption %zd after taking %zu octets from the source (%zu reached the sink)", OPN[op],
